@@ -26,12 +26,14 @@ def default_keys_and_version():
 
 
 class Child:
-    def __init__(self, home, op):
+    def __init__(self, home, op, tmpdir=None):
         c_r, c_w = os.pipe()   # scheduler -> child tokens
         e_r, e_w = os.pipe()   # child -> scheduler events
         env = dict(os.environ)
         env.update({"HOME": home, "VPROC_CTL": str(c_r), "VPROC_EVT": str(e_w), "PYTHONWARNINGS": "ignore",
                     "PYTHONDONTWRITEBYTECODE": "1"})
+        if tmpdir:
+            env["TMPDIR"] = tmpdir          # the system temp directory on ANOTHER file system than the home directory
         self.p = subprocess.Popen([PY, CHILD, op], env=env, pass_fds=(c_r, e_w), cwd=home,
                                   stdout=subprocess.DEVNULL, stderr=subprocess.DEVNULL)
         os.close(c_r)
@@ -85,6 +87,13 @@ class World:
 
     def __init__(self, scenario, ops):
         self.home = tempfile.mkdtemp(prefix="home_", dir=core.workdir())
+        # every other world: the processes' system temp directory is on another file system (tmpfs) than their home directory
+        self.tmpdir = None
+        if next(_OLD_COUNTER) % 2 == 0 and os.path.isdir("/dev/shm") and os.access("/dev/shm", os.W_OK):
+            try:
+                self.tmpdir = tempfile.mkdtemp(prefix="vproc_tmp_", dir="/dev/shm")
+            except OSError:
+                self.tmpdir = None
         self.scenario, self.ops = scenario, ops
         self.defaults, self.version = default_keys_and_version()
         evo = os.path.join(self.home, ".evo")
@@ -138,7 +147,7 @@ class World:
         return e
 
     def start(self, pid):
-        self.children[pid] = Child(self.home, self.ops.get(pid, "none"))
+        self.children[pid] = Child(self.home, self.ops.get(pid, "none"), self.tmpdir)
         return self._log(pid, {"op": "start"})
 
     def step(self, pid):
@@ -167,6 +176,8 @@ class World:
         for ch in self.children.values():
             ch.kill()
         shutil.rmtree(self.home, ignore_errors=True)
+        if self.tmpdir:
+            shutil.rmtree(self.tmpdir, ignore_errors=True)
 
     def trace(self, tid):
         ops = {p: ("set" if self.ops.get(p, "none") == "merge" else self.ops.get(p, "none")) for p in ("p1", "p2", "p3")}
